@@ -409,9 +409,13 @@ MUTANTS += [
      "new": """        fmtquill::format_to(&_pre_formatted_ts[index.first], "{:02}",
                             (hours == 0 ? 12 : (hours >= 12 ? hours - 12 : hours)));"""},
     {"id": "c13-quarter-hour-3600", "props": ["C13"], "file": "quill/backend/StringFromTime.h",
-     "desc": "local-time recalculation every hour instead of every quarter hour",
-     "old": "time_t const next_quarter_hour_ts = _nearest_quarter_hour_timestamp(timestamp) + 900;",
-     "new": "time_t const next_quarter_hour_ts = _nearest_quarter_hour_timestamp(timestamp) + 3600;"},
+     "desc": "local-time recalculation every hour instead of every minute",
+     "old": "    return ((timestamp / 60) * 60) + 60;",
+     "new": "    return ((timestamp / 3600) * 3600) + 3600;"},
+    {"id": "c13-revert-f7", "props": ["C13"], "file": "quill/backend/StringFromTime.h",
+     "desc": "local-time recalculation every quarter hour again (finding F7 comes back)",
+     "old": "_next_recalculation_timestamp = _next_minute_timestamp(timestamp);",
+     "new": "_next_recalculation_timestamp = _next_quarter_hour_timestamp(timestamp);"},
     {"id": "c13-fallback-updates-cache", "props": ["C13"], "file": "quill/backend/StringFromTime.h",
      "desc": "backward timestamp (fallback path) also moves the cached timestamp",
      "old": "      _fallback_formatted = _safe_strftime(_timestamp_format.data(), timestamp, _time_zone).data();\n",
